@@ -790,6 +790,19 @@ func c09(c *fw.Ctx) {
 		v := 1 + (i*7)%40
 		c.Run(fmt.Sprintf("qr/v%02d/%d", v, i), func(r *fw.Rec) { c09QRCase(r, v, 12, i < 2) })
 	}
+	// decoder-level sweep: many small symbols, upright and transposed, no poses - the mirrored retry
+	// only runs after the un-mirrored pass over garbage codewords has failed, so any weakness of that
+	// first pass (e.g. a Reed-Solomon decoder that "corrects" uncorrectable blocks) shows up as a
+	// misread of specific payloads at a rate of 1e-3..1e-4
+	nmir := c.Pick(60, 600)
+	for i := 0; i < nmir; i++ {
+		i := i
+		c.Run(fmt.Sprintf("qrmirror/%d", i), func(r *fw.Rec) {
+			for k := 0; k < 250; k++ {
+				c09QRCase(r, 1+(i+k)%6, 0, false)
+			}
+		})
+	}
 	// Data Matrix
 	nd := c.Pick(480, 15000)
 	for i := 0; i < nd; i++ {
